@@ -25,6 +25,9 @@ class Ctx:
     pass
 
 
+_BADGRID = [0]
+
+
 def script(meth, where, fault):
     """The well-posed declaration as an ordered list of named steps (closures over a context)."""
     c = Ctx()
@@ -70,9 +73,20 @@ def inject(c, fault, meth):
     if fault == 'signal_objective': st.add_objective(c.x)
     elif fault == 'nonscalar_objective': st.add_objective(st.at_tf(ca.vertcat(c.x, c.x)))
     elif fault == 'set_value_nonparam': st.set_value(c.x, 3)
+    elif fault == 'set_value_quadstate':
+        c.xq = st.state(quad=True); st.set_der(c.xq, c.x ** 2); st.set_value(c.xq, 3)
+    elif fault == 'set_value_bspline_variable':
+        c.vb = st.variable(grid='bspline', order=2); st.set_value(c.vb, 3)
+    elif fault == 'inf_time_dependent': st.subject_to(c.x + st.t <= 7, grid='inf')
+    elif fault == 'inf_algebraic':
+        c.z = st.algebraic(); st.add_alg(c.z - 2 * c.x); st.subject_to(c.x + c.z <= 70, grid='inf')
     elif fault == 'set_initial_param': st.set_initial(c.p, 3)
     elif fault == 'set_initial_unknown': st.set_initial(ca.MX.sym('w'), 3)
-    elif fault == 'unknown_grid_subject_to': st.subject_to(c.x <= 7, grid='foo')
+    elif fault == 'unknown_grid_subject_to':
+        # near misses of the valid names included
+        names = ['foo', 'integ', 'roots', 'control ', 'integrator_root', 'Control', 'int']
+        _BADGRID[0] += 1
+        st.subject_to(c.x <= 7, grid=names[_BADGRID[0] % len(names)])
     elif fault == 'unknown_grid_sample': c.post = lambda: st.sample(c.x, grid='foo')
     elif fault == 'foreign_symbol_constraint': st.subject_to(c.x <= 7 + ca.MX.sym('w'))
     elif fault == 'foreign_symbol_objective': st.add_objective(st.at_tf(c.x * ca.MX.sym('w')))
